@@ -236,7 +236,11 @@ class MemoryWorkflowStore(AbstractWorkflowStore):
                     continue
 
             for event in batch:
-                yield event
                 cursor += 1
+                # A cursor ahead of the log (nothing stored yet at subscribe time)
+                # still means "only events numbered above it", as in the SQL stores.
+                if event.sequence <= after_sequence:
+                    continue
+                yield event
                 if self._is_terminal_event(event):
                     return
